@@ -149,6 +149,7 @@ impl Env {
             ("prog.solend", marginfi::constants::SOLEND_PROGRAM_ID),
             ("prog.wrapper", crate::rt::wrapper_program_id()),
             ("prog.unknown", crate::rt::noop_program_id()),
+            ("prog.mocks", marginfi::constants::MOCKS_PROGRAM_ID),
         ] {
             e.names.reg(n, k);
             e.world.add_program(k);
